@@ -7,6 +7,7 @@ arbitrary object graphs is not decided.
 from __future__ import annotations
 
 import ast
+import re
 from typing import Dict, List, Optional, Set, Tuple
 
 from ..core import AnalysisError, FuncInfo, Repo, dotted
@@ -515,8 +516,12 @@ def slice_resolution(repo: Repo, R):
     # every `Concat(*(A + B))` keeps first-before-rest; the rest is resolved from parts[k:]
     n = 0
     for c, b in pat.find("Concat(*($A + $B))", fi.node):
-        a, bb = ast.unparse(b["A"]), ast.unparse(b["B"])
-        ok = a.startswith("first") and bb.startswith("rest")
+        # by provenance, not by name: the left operand is made of the head (`parts[0]` / `parts[:k]`), the right one of
+        # the resolved tail (`parts[k:]`)
+        a, bb = shared.prov_text(fi.node, b["A"]), shared.prov_text(fi.node, b["B"])
+        head = lambda t: bool(re.search(r"\.parts\[(0|:\w+)\]", t))
+        tail = lambda t: bool(re.search(r"\.parts\[\w+:\]", t))
+        ok = head(a) and not tail(a) and tail(bb) and not head(bb)
         n += 1
         R.check(ok, rule, key_of(fi, f"concat-order-{n}"), fi.at(c),
                 f"`{ast.unparse(c)}` concatenates the resolved head before the resolved tail: {ok}",
